@@ -72,6 +72,13 @@ CircCirc ==
     => (px - a) * (px - a) + (py - b) * (py - b) <= c * c
 
 \* ---- staging of CircCirc (triangle inequality without square roots) ----
+\* CircCirc itself is not discharged by the solver within minutes; it follows from four lemmas
+\* that are.  With u = point - inner centre, v = inner centre - outer centre, g = inner radius,
+\* h = outer radius - inner radius (>= 0 by the code's test), the hypotheses give |u|^2 <= g^2
+\* and |v|^2 <= h^2; CauchySchwarz gives (u.v)^2 <= |u|^2 |v|^2; DotBound (with e := u.v,
+\* px := |u|^2, py := |v|^2) gives u.v <= g h; Expand gives |u+v|^2 = |u|^2 + |v|^2 + 2 u.v; and
+\* SumBound gives |u|^2 + |v|^2 + 2 u.v <= (g + h)^2 = (outer radius)^2.  The composition is a
+\* substitution of terms for variables and is not machine-checked.
 \* u = (a,b) = point - inner centre, v = (c,d) = inner centre - outer centre, g = inner radius,
 \* h = outer radius - inner radius
 \* Lagrange / Cauchy-Schwarz: (u.v)^2 <= |u|^2 |v|^2
